@@ -49,6 +49,7 @@ struct PShm_ {
 	psize		size;
 	PSemaphore	*sem;
 	PShmAccessPerms	perms;
+	psize		map_size;
 };
 
 static pboolean pp_shm_create_handle (PShm *shm, PError **error);
@@ -148,6 +149,9 @@ pp_shm_create_handle (PShm	*shm,
 		return FALSE;
 	}
 
+	/* The reported size may be clamped later, remember what was mapped */
+	shm->map_size = shm->size;
+
 	if (P_UNLIKELY (p_sys_close (fd) != 0))
 		P_WARNING ("PShm::pp_shm_create_handle: p_sys_close() failed(4)");
 
@@ -164,7 +168,7 @@ pp_shm_create_handle (PShm	*shm,
 static void
 pp_shm_clean_handle (PShm *shm)
 {
-	if (P_UNLIKELY (shm->addr != NULL && munmap (shm->addr, shm->size) == -1))
+	if (P_UNLIKELY (shm->addr != NULL && munmap (shm->addr, shm->map_size) == -1))
 		P_ERROR ("PShm::pp_shm_clean_handle: munmap () failed");
 
 	if (shm->shm_created == TRUE && shm_unlink (shm->platform_key) == -1)
@@ -178,6 +182,7 @@ pp_shm_clean_handle (PShm *shm)
 	shm->shm_created = FALSE;
 	shm->addr        = NULL;
 	shm->size        = 0;
+	shm->map_size    = 0;
 }
 
 P_LIB_API PShm *
